@@ -82,8 +82,8 @@ def check(ctx):
         if not found:
             ctx.ob("R02.2", f"{fkey}|{rule_key}", False, f"{body.f['file']}:{body.f['line']}", "no recognisable guard")
     def am_full(body, dg, b, c):
-        op, a, bb, tt, ft = c
-        cop, x, y = dag.canon_cmp(op, a, bb)
+        op, a, bb = c[0], c[1], c[2]
+        kind, x, y, tt, ft = dag.canon_branch(c)
         x, y = strip_casts(x), strip_casts(y)
         # dist < N  where dist = reserved - head
         def is_dist(e):
@@ -92,15 +92,14 @@ def check(ctx):
         N = ("gconst", "BUFFER_SIZE")
         if is_dist(x) or is_dist(y) or N in (x, y):
             if not (is_dist(x) or is_dist(y)) : return None
-            ok = (cop == "lt" and is_dist(x) and y == N)
-            somearm = tt if ok else None
+            ok = (kind == "lt" and is_dist(x) and y == N)
             ok = ok and _returns_variant(body, tt, 1)
             return (ok, f"fullness guard is `{show(a)} {op} {show(bb)}`; required: (reserved - head) < BUFFER_SIZE accepts (reserved-but-unpublished slots count; capacity exactly BUFFER_SIZE)")
         return None
     guard(AM + "::leak_slot_internal", "fullness", am_full)
     def am_empty(body, dg, b, c):
-        op, a, bb, tt, ft = c
-        cop, x, y = dag.canon_cmp(op, a, bb)
+        op, a, bb = c[0], c[1], c[2]
+        cop, x, y, tt, ft = dag.canon_branch(c)
         xs, ys = strip_casts(x), strip_casts(y)
         def is_avail(e):
             return e[0] == "bin" and e[1] == "Sub~" and strip_casts(e[2])[0] == "atomic" and strip_casts(e[2])[1] == "load" \
@@ -114,8 +113,8 @@ def check(ctx):
     guard(AM + "::consume_leaking_internal", "emptiness", am_empty)
     # full-sync ring guards
     def fs_full(body, dg, b, c):
-        op, a, bb, tt, ft = c
-        cop, x, y = dag.canon_cmp(op, a, bb)
+        op, a, bb = c[0], c[1], c[2]
+        cop, x, y, tt, ft = dag.canon_branch(c)
         x, y = strip_casts(x), strip_casts(y)
         want = ("bin", "Sub~", ("mem", ("tail",)), ("mem", ("head",)))
         if want not in (x, y): return None
@@ -123,8 +122,8 @@ def check(ctx):
         return (ok, f"fullness guard is `{show(a)} {op} {show(bb)}`; required: (tail - head) < BUFFER_SIZE")
     guard(FSM + "::leak_slot_internal", "fullness", fs_full)
     def fs_empty(body, dg, b, c):
-        op, a, bb, tt, ft = c
-        cop, x, y = dag.canon_cmp(op, a, bb)
+        op, a, bb = c[0], c[1], c[2]
+        cop, x, y, tt, ft = dag.canon_branch(c)
         xs, ys = strip_casts(x), strip_casts(y)
         def is_len(e): return e[0] == "call" and e[1].endswith("available_elements_count")
         def is_len2(e): return e == ("bin", "Sub~", ("mem", ("tail",)), ("mem", ("head",)))
